@@ -101,6 +101,8 @@ class Report:
         instances, else the analysis is broken (exit 2)."""
         r = self.rules.get(rid, {})
         n = r.get("instances", 0)
+        if r.get("violations", 0):
+            return      # violations of one construct are merged across configurations; the run already fails
         if n < minimum:
             self.broken.append("rule %s examined %d instance(s), expected at "
                                "least %d %s" % (rid, n, minimum, what))
@@ -110,6 +112,8 @@ class Report:
         violated); too many lost proofs make the check vacuous -> exit 2"""
         r = self.rules.get(rid, {})
         n = r.get("instances", 0) - r.get("unproved", 0)
+        if r.get("violations", 0):
+            return
         if n < minimum:
             self.broken.append("rule %s decided only %d obligation(s) (%d unproved), expected at least %d" % (
                 rid, n, r.get("unproved", 0), minimum))
